@@ -95,7 +95,7 @@ type stParent struct {
 type State struct {
 	x       *FnExec
 	heap    map[string]*Term
-	cells   map[*ssa.Alloc]Value
+	cells   map[ssa.Value]Value
 	alloc   *Term
 	base    *State
 	parents []stParent
@@ -104,21 +104,21 @@ type State struct {
 
 func (x *FnExec) rootState() *State {
 	x.epochs++
-	s := &State{x: x, heap: map[string]*Term{}, cells: map[*ssa.Alloc]Value{}, epoch: x.epochs}
+	s := &State{x: x, heap: map[string]*Term{}, cells: map[ssa.Value]Value{}, epoch: x.epochs}
 	s.alloc = x.tc.Sym(fmt.Sprintf("ALLOCROOT.%d", s.epoch), x.refSort())
 	x.addFact(x.intGt(s.alloc, x.refConst(0)))
 	return s
 }
 
 func (s *State) child() *State {
-	return &State{x: s.x, heap: map[string]*Term{}, cells: map[*ssa.Alloc]Value{}, alloc: s.alloc, base: s}
+	return &State{x: s.x, heap: map[string]*Term{}, cells: map[ssa.Value]Value{}, alloc: s.alloc, base: s}
 }
 
 func (x *FnExec) mergeStates(ps []stParent) *State {
 	if len(ps) == 1 {
 		return ps[0].s.child()
 	}
-	s := &State{x: x, heap: map[string]*Term{}, cells: map[*ssa.Alloc]Value{}, parents: ps}
+	s := &State{x: x, heap: map[string]*Term{}, cells: map[ssa.Value]Value{}, parents: ps}
 	a := ps[len(ps)-1].s.alloc
 	for i := len(ps) - 2; i >= 0; i-- {
 		a = x.tc.Ite(ps[i].g, ps[i].s.alloc, a)
@@ -156,7 +156,7 @@ func (s *State) setHeap(key string, t *Term) {
 	}
 }
 
-func (s *State) getCell(a *ssa.Alloc) (Value, bool) {
+func (s *State) getCell(a ssa.Value) (Value, bool) {
 	if v, ok := s.cells[a]; ok {
 		return v, true
 	}
@@ -198,7 +198,7 @@ func (s *State) getCell(a *ssa.Alloc) (Value, bool) {
 	return v, ok
 }
 
-func (s *State) setCell(a *ssa.Alloc, v Value) {
+func (s *State) setCell(a ssa.Value, v Value) {
 	s.cells[a] = v
 	if s.x.cellLog != nil {
 		s.x.cellLog[a] = true
